@@ -489,6 +489,9 @@ m('statistics-copy-without-latch', ['C19'], ST, """	// cs can be updated by stat
 	cs.latch.RLock()
 	defer cs.latch.RUnlock()
 """, """""", ['C19-R1/statistics [columnStats.GetDeepCopy:fields-under-latch]'])
+m('cross-side-non-equality-conditions-dropped', ['C11'], SO, """			if samehada_util.IsColumnName(here.Left) && samehada_util.IsColumnName(here.Right) {
+				isEqual := here.ComparisonOperationType == expression.Equal""", """			if here.ComparisonOperationType == expression.Equal && samehada_util.IsColumnName(here.Left) && samehada_util.IsColumnName(here.Right) {
+				isEqual := here.ComparisonOperationType == expression.Equal""", ['C11-R7 [findBestJoinInner:non-equality-cross-conditions-are-collected]'])
 # drop the one that needs a helper that does not exist
 M = [x for x in M if x['id'] != 'insert-executor-unlocks-early']
 os.chdir(os.path.dirname(os.path.abspath(__file__)) + '/..')
